@@ -47,6 +47,11 @@ Sensitivity (quick tier, seed 1, scratch copies of tornado/iostream.py; every mu
       -> seeds 1,2,3: C11.lost_write_interest (a third of the cases keep a write blocked on a full transport
       during the read program, optionally flushed mid-way; at every quiescence unsent bytes => WRITE
       registered, pending read => READ registered, and a flushed write must be complete)
+  M12 _check_max_bytes: ``self._read_max_bytes is not None`` -> truthiness (max_bytes=0 means "no limit")
+      -> seeds 1,2,3: C11.returned_more_than_max_bytes (max_bytes boundary values 0, 1, len(delimiter),
+      len(delimiter)-1/+1 are generated, and relative limits may now come out as 0; model for 0: any
+      buffered byte is unsatisfiable -> close with UnsatisfiableReadError, empty buffer -> pending;
+      labels maxbytes_zero / maxbytes_one / maxbytes_eq_delimiter_len[_minus1])
   (M9 ``>= next_find_pos`` -> ``>`` survives: it only changes how often the buffer is scanned - equivalent.)
 """
 import collections
@@ -64,8 +69,8 @@ READY = True
 RULE = (
     "Hypothesis cases: stream of <=24 pieces (delimiter tokens + runs up to 1500 bytes, <=4 KiB) x "
     "read_chunk_size in {1,2,3,7,64,4096} x <=30 interleaved steps (feed burst of <=8 segments with sizes "
-    "from {1, rcs-1, rcs, rcs+1, 2rcs, ...} | read request; <=12 reads of 5 kinds, max_bytes absolute or "
-    "relative -1/0/+1 to the real delimiter end) x FIN|RST at a generated position; every case ends with "
+    "from {1, rcs-1, rcs, rcs+1, 2rcs, ...} | read request; <=12 reads of 5 kinds, max_bytes absolute (incl. "
+    "0 and 1), relative -1/0/+1 to the real delimiter end, or delimiter length -1/0/+1) x FIN|RST at a generated position; every case ends with "
     "a draining read_until_close. non-trivial = a delimiter/regex match straddles two arrivals, or a "
     "result spans >=3 arrivals, or read_into is issued with leftover buffered data, or a delimiter ends "
     "at max_bytes-1/max_bytes/max_bytes+1; distinct = SHA-1 of the case"
@@ -222,6 +227,17 @@ async def scenario(ctx, case, labels):
         rd = M.Read(spec, mb)
         labels.add("k_" + spec[0] + ("_partial" if spec[0] in ("bytes", "into") and spec[2] else "")
                    + ("_maxbytes" if mb is not None else ""))
+        if mb is not None:
+            if mb == 0:
+                labels.add("maxbytes_zero")
+            elif mb == 1:
+                labels.add("maxbytes_one")
+            if spec[0] == "until":
+                dl = len(M.DELIMS[spec[1]])
+                if mb == dl:
+                    labels.add("maxbytes_eq_delimiter_len")
+                elif mb == dl - 1:
+                    labels.add("maxbytes_eq_delimiter_len_minus1")
         if spec[0] == "into":
             lo = s._read_buffer_size  # label only
             if lo > 0:
